@@ -10,8 +10,8 @@ RULE = ("documents of 0..200 entries (1..3 accessions, 0..2 names, sequence text
         "consumers: sequential (entries, then errors) and concurrent, seeded random stalls, entry/error capacities 0..100; "
         "damage: truncation at EVERY byte offset of the plain text of small documents (quick: 2 documents, one consumer/"
         "capacity/source setting per offset in rotation; thorough: 4 documents x 5 settings), truncation at EVERY byte "
-        "offset of the GZIP stream of a small document for Parse-on-gzip and uniprot.Read (quick: the empty-root document; "
-        "thorough: also the two-entry document), random truncation of larger ones, overwriting one byte with 0x01 / a "
+        "offset of the GZIP stream of small documents for Parse-on-gzip and uniprot.Read (quick: the documents with 0, 1 "
+        "and 2 entries; thorough: all four), random truncation of larger ones, overwriting one byte with 0x01 / a "
         "lone byte >= 0x80 (invalid UTF-8, applied by the harness) / '<' in leaf text / a letter of an end-tag name, a "
         "schema-invalid attribute value, gzip stream truncated or one byte flipped at random. "
         "non-trivial = at least one entry; distinct by case text")
@@ -167,11 +167,11 @@ def cases(seed, tier):
                 yield case(r, cons, ec, qc, src, "trunc:%d" % n, prolog, tnl, entries)
     # ---- exhaustive truncation of the GZIP byte stream (the compressed stream of these small documents is
     # ---- shorter than the text + 24; offsets beyond its end leave it intact), Parse on gzip and uniprot.Read
-    for (prolog, tnl, entries) in ([SMALL[3]] if quick else [SMALL[3], SMALL[0]]):
+    for (prolog, tnl, entries) in ([SMALL[3], SMALL[2], SMALL[0]] if quick else SMALL):
         text, _, _, _ = render(prolog, entries, tnl)
         for n in range(0, len(text) + 24):
-            yield case(r, "seq", 0, 0, "gz", "gztruncabs:%d" % n, prolog, tnl, entries)
-            yield case(r, "seq" if n % 2 else "conc", 100, 100, "read", "gztruncabs:%d" % n, prolog, tnl, entries)
+            yield case(r, "seq", 0, 0, "gz", "gztruncabs:%d" % n, prolog, tnl, entries, stall=0)
+            yield case(r, "seq" if n % 2 else "conc", 100, 100, "read", "gztruncabs:%d" % n, prolog, tnl, entries, stall=0)
     # ---- well-formed documents, 0..200 entries, every consumer / capacity / source
     for i in range(60 if quick else 1500):
         k = r.choice([0, 1, 2, 3]) if r.random() < 0.3 else min(200, loglen(r, 1, 200))
@@ -189,6 +189,11 @@ def cases(seed, tier):
     for i in range(3 if quick else 40):
         entries = [entry(r) for _ in range(r.randint(101, 200))]
         yield case(r, r.choice(["seq", "conc"]), 100, 100, "read2", "none", 1, True, entries)
+    # ---- a slow consumer: one stall of 1.5 s before the third receive
+    if not quick:
+        for (cons, ec, qc, dmg) in [("seq", 0, 0, "none"), ("conc", 1, 0, "none"), ("seq", 2, 0, "trunc:400")]:
+            prolog, tnl, entries = SMALL[0]
+            yield case(r, cons, ec, qc, "plain", dmg, prolog, tnl, [entry(r) for _ in range(6)] if dmg == "none" else entries, stall=2500)
     # ---- damaged larger documents
     for i in range(150 if quick else 4000):
         k = min(200, loglen(r, 1, 60 if quick else 200))
@@ -230,11 +235,11 @@ def cases(seed, tier):
             yield case(r, "seq", ec, qc, "plain", "trunc:%d" % n, prolog, tnl, entries)
     # ---- a schema-invalid attribute value (non-sticky decode error; judged as damage at that entry), and
     # ---- arbitrary overwrites (mostly unclassified: correspondence only)
-    for i in range(10 if quick else 200):
+    for i in range(14 if quick else 250):
         k = r.randint(1, 6)
         entries = [entry(r) for _ in range(k)]
-        j = r.randrange(k)
-        entries[j] = entry(r, valid=False)
+        for j in r.sample(range(k), min(k, r.choice([1, 1, 2, 3]))):    # one to three invalid entries
+            entries[j] = entry(r, valid=False)
         yield case(r, r.choice(["seq", "conc"]), r.randint(0, 5), r.randint(2, 100), "plain", "none", 1, True, entries)
     for i in range(30 if quick else 600):
         entries = [entry(r) for _ in range(r.randint(1, 4))]
